@@ -97,13 +97,21 @@ func verifC19CLI(c *drv.Ctx) {
 			time.Sleep(kk.ival / 2)
 			vs.Visible("sigint", func() { sigAt = vs.VNow(); vs.S.Interrupt() })
 		}
-		run, x := vE2EOnce(sc)
-		c.Eval(1)
-		c.Nontrivial(1)
-		c.R.Transitions += int64(x.Steps)
+		var run *vE2ERun
+		var x *vs.Exec
 		rep := map[string]any{"part": "c19cli", "args": sc.Args}
 		key := func(cl string) string { return fmt.Sprintf("live-cli:%s:%s:%s:rate=%s", cl, k.subnet, k.interval, k.rate) }
 		name := strings.Join(sc.Args, " ")
+		// a run takes milliseconds of real time; one that is still going after a minute never ends
+		if !drv.Watchdog(60*time.Second, func() { run, x = vE2EOnce(sc) }) {
+			c.Eval(1)
+			c.Fail(key("never-ends"), fmt.Sprintf("%s: the run (a few passes, then SIGINT once %d passes are on the wire) did not finish within 60 s of real time - it takes milliseconds: the passes do not come, or not completely, and the program spins", name, k.passes), rep)
+			c.R.Exhaustive = false
+			c.FlushAndExit()
+		}
+		c.Eval(1)
+		c.Nontrivial(1)
+		c.R.Transitions += int64(x.Steps)
 		if _, err := vBasic(x); err != nil {
 			c.Fail(key("crash-or-hang"), name+": "+err.Error(), rep)
 			continue
